@@ -38,7 +38,8 @@
    `Mutant` selects spec-level mutations used as self-tests (must be rejected by TLC):
      "none"            the code
      "bump_first_only" remove/remove_if/remove_all/add bump the generation of the first list only
-     "seq_zero"        a reader that misses its cache re-derives the key at sequence number 0   *)
+     "seq_zero"        a reader that misses its cache re-derives the key at sequence number 0
+     "seq_zero_if_moved"  ... only when swap_remove moved the channel to another list slot        *)
 EXTENDS Naturals, Sequences, FiniteSets, TLC
 
 CONSTANTS Readers,     \* reader thread ids (1..N)
@@ -70,6 +71,12 @@ Targets(o, present) == CASE o[1] = "rm" -> {o[2]}
                          [] o[1] = "rmif" -> o[2]
                          [] o[1] = "clear" -> present
                          [] OTHER -> {}
+
+(* the sequence number a reader's re-derived key starts at after a cache miss: the cached one *)
+ResumeAt(cached, oldIdx, newIdx) ==
+   CASE Mutant = "seq_zero" -> 0
+     [] Mutant = "seq_zero_if_moved" -> IF oldIdx = newIdx THEN cached ELSE 0
+     [] OTHER -> cached
 
 (* --algorithm AfcShm {
   variables gen = [s \in Sides |-> 0],
@@ -157,7 +164,7 @@ Targets(o, present) == CASE o[1] = "rm" -> {o[2]}
           if (k <= Len(script)) { goto wop; } else { goto Done; };
   }
   process (r \in Readers)
-    variables n = 0, what = "none", ctx = "none", tid = NOID, cid = NOID, cgen = 0, cseq = 0,
+    variables n = 0, what = "none", ctx = "none", tid = NOID, cid = NOID, cgen = 0, cseq = 0, cidx = 0,
               so = "A", after = FALSE, rfail = FALSE, seqs = <<>>, res = "none";
   {
   rop:    \* the next call is invoked
@@ -188,13 +195,15 @@ Targets(o, present) == CASE o[1] = "rm" -> {o[2]}
              if (after) { bad := bad \cup {"used_after_remove"}; };
              if (what = "setup") {
                 ctx := Dir(tid); cid := tid; cgen := gen[so]; cseq := 0; seqs := <<>>; res := "ok";
+                cidx := IndexOf(chans[so], tid);             \* Cache::idx, the lookup hint
              } else if (~rfail) {
                 \* key re-derived at the cached sequence number; the cache is refreshed
                 if (what = "seal") {
-                   seqs := Append(seqs, IF Mutant = "seq_zero" THEN 0 ELSE cseq);
-                   cseq := (IF Mutant = "seq_zero" THEN 0 ELSE cseq) + 1;
+                   seqs := Append(seqs, ResumeAt(cseq, cidx, IndexOf(chans[so], tid)));
+                   cseq := ResumeAt(cseq, cidx, IndexOf(chans[so], tid)) + 1;
                 };
-                cgen := gen[so]; res := "ok";
+                \* the hint only speeds the lookup up: the channel may have been moved by swap_remove
+                cgen := gen[so]; cidx := IndexOf(chans[so], tid); res := "ok";
              } else { res := "fail"; };
           } else {
              if (tid \notin removalStarted) { bad := bad \cup {"lost_channel"}; };
@@ -207,13 +216,13 @@ Targets(o, present) == CASE o[1] = "rm" -> {o[2]}
 \* BEGIN TRANSLATION
 VARIABLES pc, gen, chans, lock, read_off, write_off, next_id, script, ever, 
           removalStarted, removedDone, table, wres, bad, k, op, id, off, roff, 
-          idx, victims, n, what, ctx, tid, cid, cgen, cseq, so, after, rfail, 
-          seqs, res
+          idx, victims, n, what, ctx, tid, cid, cgen, cseq, cidx, so, after, 
+          rfail, seqs, res
 
 vars == << pc, gen, chans, lock, read_off, write_off, next_id, script, ever, 
            removalStarted, removedDone, table, wres, bad, k, op, id, off, 
-           roff, idx, victims, n, what, ctx, tid, cid, cgen, cseq, so, after, 
-           rfail, seqs, res >>
+           roff, idx, victims, n, what, ctx, tid, cid, cgen, cseq, cidx, so, 
+           after, rfail, seqs, res >>
 
 ProcSet == {W} \cup (Readers)
 
@@ -247,6 +256,7 @@ Init == (* Global variables *)
         /\ cid = [self \in Readers |-> NOID]
         /\ cgen = [self \in Readers |-> 0]
         /\ cseq = [self \in Readers |-> 0]
+        /\ cidx = [self \in Readers |-> 0]
         /\ so = [self \in Readers |-> "A"]
         /\ after = [self \in Readers |-> FALSE]
         /\ rfail = [self \in Readers |-> FALSE]
@@ -266,8 +276,8 @@ wop == /\ pc[W] = "wop"
        /\ pc' = [pc EXCEPT ![W] = "wl1"]
        /\ UNCHANGED << gen, chans, lock, read_off, write_off, script, ever, 
                        removedDone, table, wres, bad, k, off, roff, idx, 
-                       victims, n, what, ctx, tid, cid, cgen, cseq, so, after, 
-                       rfail, seqs, res >>
+                       victims, n, what, ctx, tid, cid, cgen, cseq, cidx, so, 
+                       after, rfail, seqs, res >>
 
 wl1 == /\ pc[W] = "wl1"
        /\ lock[write_off] = NONE
@@ -329,7 +339,7 @@ wl1 == /\ pc[W] = "wl1"
                   /\ bad' = bad
        /\ UNCHANGED << gen, chans, read_off, write_off, next_id, script, ever, 
                        removalStarted, table, op, id, roff, n, what, ctx, tid, 
-                       cid, cgen, cseq, so, after, rfail, seqs, res >>
+                       cid, cgen, cseq, cidx, so, after, rfail, seqs, res >>
 
 wb1 == /\ pc[W] = "wb1"
        /\ gen' = [gen EXCEPT ![off] = gen[off] + 1]
@@ -342,7 +352,7 @@ wb1 == /\ pc[W] = "wb1"
        /\ UNCHANGED << read_off, write_off, next_id, script, ever, 
                        removalStarted, removedDone, table, wres, bad, k, op, 
                        id, off, roff, idx, victims, n, what, ctx, tid, cid, 
-                       cgen, cseq, so, after, rfail, seqs, res >>
+                       cgen, cseq, cidx, so, after, rfail, seqs, res >>
 
 ws == /\ pc[W] = "ws"
       /\ roff' = read_off
@@ -351,7 +361,7 @@ ws == /\ pc[W] = "ws"
       /\ UNCHANGED << gen, chans, lock, write_off, next_id, script, ever, 
                       removalStarted, removedDone, table, wres, bad, k, op, id, 
                       off, idx, victims, n, what, ctx, tid, cid, cgen, cseq, 
-                      so, after, rfail, seqs, res >>
+                      cidx, so, after, rfail, seqs, res >>
 
 wl2 == /\ pc[W] = "wl2"
        /\ lock[roff] = NONE
@@ -370,8 +380,8 @@ wl2 == /\ pc[W] = "wl2"
                   /\ UNCHANGED << write_off, removedDone, table, wres, k >>
        /\ UNCHANGED << gen, chans, read_off, next_id, script, ever, 
                        removalStarted, bad, op, id, off, roff, idx, victims, n, 
-                       what, ctx, tid, cid, cgen, cseq, so, after, rfail, seqs, 
-                       res >>
+                       what, ctx, tid, cid, cgen, cseq, cidx, so, after, rfail, 
+                       seqs, res >>
 
 wb2 == /\ pc[W] = "wb2"
        /\ IF Mutant # "bump_first_only"
@@ -402,7 +412,7 @@ wb2 == /\ pc[W] = "wb2"
              ELSE /\ pc' = [pc EXCEPT ![W] = "Done"]
        /\ UNCHANGED << read_off, next_id, script, removalStarted, op, id, off, 
                        roff, idx, victims, n, what, ctx, tid, cid, cgen, cseq, 
-                       so, after, rfail, seqs, res >>
+                       cidx, so, after, rfail, seqs, res >>
 
 w == wop \/ wl1 \/ wb1 \/ ws \/ wl2 \/ wb2
 
@@ -426,7 +436,7 @@ rop(self) == /\ pc[self] = "rop"
              /\ UNCHANGED << gen, chans, lock, read_off, write_off, next_id, 
                              script, ever, removalStarted, removedDone, table, 
                              wres, bad, k, op, id, off, roff, idx, victims, 
-                             ctx, cid, cgen, cseq, so, seqs >>
+                             ctx, cid, cgen, cseq, cidx, so, seqs >>
 
 l1(self) == /\ pc[self] = "l1"
             /\ so' = [so EXCEPT ![self] = read_off]
@@ -436,8 +446,8 @@ l1(self) == /\ pc[self] = "l1"
             /\ UNCHANGED << gen, chans, lock, read_off, write_off, next_id, 
                             script, ever, removalStarted, removedDone, table, 
                             wres, bad, k, op, id, off, roff, idx, victims, n, 
-                            what, ctx, tid, cid, cgen, cseq, after, rfail, 
-                            seqs, res >>
+                            what, ctx, tid, cid, cgen, cseq, cidx, after, 
+                            rfail, seqs, res >>
 
 e2(self) == /\ pc[self] = "e2"
             /\ IF gen[so[self]] = cgen[self]
@@ -462,7 +472,7 @@ e2(self) == /\ pc[self] = "e2"
             /\ UNCHANGED << gen, chans, lock, read_off, write_off, next_id, 
                             script, ever, removalStarted, removedDone, table, 
                             wres, k, op, id, off, roff, idx, victims, n, what, 
-                            ctx, tid, cid, cgen, so, after, rfail >>
+                            ctx, tid, cid, cgen, cidx, so, after, rfail >>
 
 lk(self) == /\ pc[self] = "lk"
             /\ lock[so[self]] = NONE
@@ -478,17 +488,20 @@ lk(self) == /\ pc[self] = "lk"
                                   /\ cseq' = [cseq EXCEPT ![self] = 0]
                                   /\ seqs' = [seqs EXCEPT ![self] = <<>>]
                                   /\ res' = [res EXCEPT ![self] = "ok"]
+                                  /\ cidx' = [cidx EXCEPT ![self] = IndexOf(chans[so[self]], tid[self])]
                              ELSE /\ IF ~rfail[self]
                                         THEN /\ IF what[self] = "seal"
-                                                   THEN /\ seqs' = [seqs EXCEPT ![self] = Append(seqs[self], IF Mutant = "seq_zero" THEN 0 ELSE cseq[self])]
-                                                        /\ cseq' = [cseq EXCEPT ![self] = (IF Mutant = "seq_zero" THEN 0 ELSE cseq[self]) + 1]
+                                                   THEN /\ seqs' = [seqs EXCEPT ![self] = Append(seqs[self], ResumeAt(cseq[self], cidx[self], IndexOf(chans[so[self]], tid[self])))]
+                                                        /\ cseq' = [cseq EXCEPT ![self] = ResumeAt(cseq[self], cidx[self], IndexOf(chans[so[self]], tid[self])) + 1]
                                                    ELSE /\ TRUE
                                                         /\ UNCHANGED << cseq, 
                                                                         seqs >>
                                              /\ cgen' = [cgen EXCEPT ![self] = gen[so[self]]]
+                                             /\ cidx' = [cidx EXCEPT ![self] = IndexOf(chans[so[self]], tid[self])]
                                              /\ res' = [res EXCEPT ![self] = "ok"]
                                         ELSE /\ res' = [res EXCEPT ![self] = "fail"]
-                                             /\ UNCHANGED << cgen, cseq, seqs >>
+                                             /\ UNCHANGED << cgen, cseq, cidx, 
+                                                             seqs >>
                                   /\ UNCHANGED << ctx, cid >>
                   ELSE /\ IF tid[self] \notin removalStarted
                              THEN /\ bad' = (bad \cup {"lost_channel"})
@@ -499,7 +512,7 @@ lk(self) == /\ pc[self] = "lk"
                              ELSE /\ TRUE
                                   /\ ctx' = ctx
                        /\ res' = [res EXCEPT ![self] = "notfound"]
-                       /\ UNCHANGED << cid, cgen, cseq, seqs >>
+                       /\ UNCHANGED << cid, cgen, cseq, cidx, seqs >>
             /\ IF n[self] < ROps
                   THEN /\ pc' = [pc EXCEPT ![self] = "rop"]
                   ELSE /\ pc' = [pc EXCEPT ![self] = "Done"]
